@@ -118,4 +118,24 @@ def adjacent(which, lean):
                doc="%s: are the channels of the source's x-iterator adjacent in memory (then the channel view is a plain pointer view)" % ("__kth_channel_view" if which else "__nth_channel_view"))
 SYMS += [chan_make(False, False), chan_make(False, True), chan_make(True, False), chan_make(True, True),
          adjacent(0, "nth_channel_is_adjacent"), adjacent(1, "kth_channel_is_adjacent")]
+# position_iterator::operator= (virtual_2d_locator stores ONE position_iterator and reinterprets it for the other axis, so an assignment of a
+# virtual locator / view must copy the position and BOTH step components)
+POSI = "boost/gil/position_iterator.hpp"
+SYMS.append(Sym(POSI, r"auto operator=\(position_iterator const& p\) -> position_iterator&", "pos_assign",
+                [("p_px", PD), ("p_py", PD), ("p_sx", PD), ("p_sy", PD), ("px", PD), ("py", PD), ("sx", PD), ("sy", PD)], outputs=["px", "py", "sx", "sy"],
+                subst=[(r"_p\s*=\s*p\._p;", "px = p_px; py = p_py;"), (r"_d\s*=\s*p\._d;", ""), (r"_step\s*=\s*p\._step;", "sx = p_sx; sy = p_sy;"),
+                       (r"return \*this;", "")],
+                doc="position_iterator::operator=: position and step of the assigned-to iterator"))
 NAMESPACE = "GilVerif.Gen.C02"
+
+def extra_header(include_root):
+    """source probe (not a translation): does make_step_iterator keep the function object of a dereference_iterator_adaptor?
+       (known finding C02-deref-adaptor-step-drops-functor; 1 once proposed_fixes/C02-deref-adaptor-step-keeps-functor.diff is applied)"""
+    import os
+    try: text = open(os.path.join(include_root, "boost/gil/step_iterator.hpp")).read()
+    except OSError: text = ""
+    keeps = 1 if re.search(r"make_step_iterator_impl\(\s*dereference_iterator_adaptor<", text) else 0
+    return ("/-- 1 iff step_iterator.hpp has a make_step_iterator_impl overload for dereference_iterator_adaptor (the stepped iterator keeps the\n"
+            "    dereference function object); 0: the stepped base is converted back and the function object is default-constructed -/\n"
+            "def GilVerif.Gen.C02.deref_step_keeps_functor : Int := %d\n\n" % keeps)
+
